@@ -7,6 +7,7 @@ import (
 	"strconv"
 	"strings"
 	"testing"
+	"time"
 
 	"github.com/go-kid/ioc/app"
 	"github.com/go-kid/ioc/configure/loader"
@@ -590,4 +591,66 @@ func TestKnownAnyNumberKind(t *testing.T) {
 	}
 	fails := fmt.Sprintf("%T", obj.P["n"]) != fmt.Sprintf("%T", obj.V["n"])
 	kit.Rec.KnownWitness("any-number-kind", fails, fmt.Sprintf("prefix twin holds %T(%v), value twin holds %T(%v)", obj.P["n"], obj.P["n"], obj.V["n"], obj.V["n"]))
+}
+
+// ---- conversions the binder documents through its arguments: durations, time layouts, mapper tag ----
+
+type Mapped struct {
+	Host string `cfg:"h"`
+	Port int    `cfg:"p"`
+}
+
+func TestConversions(t *testing.T) {
+	kit.Rec.Rule(rule)
+	rapid.Check(t, func(t *rapid.T) {
+		var doc string
+		var fields []reflect.StructField
+		var want any
+		switch rapid.IntRange(0, 2).Draw(t, "conv") {
+		case 0:
+			d := time.Duration(rapid.IntRange(0, 100000).Draw(t, "ms")) * time.Millisecond
+			doc = fmt.Sprintf("c17:\n  key: %q\n", d.String())
+			typ := reflect.TypeOf(time.Duration(0))
+			fields = []reflect.StructField{{Name: "P", Type: typ, Tag: `prefix:"c17.key"`}, {Name: "V", Type: typ, Tag: `value:"${c17.key}"`}, {Name: "Q", Type: typ, Tag: `prop:"c17.key"`}}
+			want = d
+		case 1:
+			layout := rapid.SampledFrom([]string{"2006-01-02", "2006-01-02T15:04:05Z07:00"}).Draw(t, "layout")
+			tm := time.Date(2000+rapid.IntRange(0, 30).Draw(t, "y"), time.Month(rapid.IntRange(1, 12).Draw(t, "m")), rapid.IntRange(1, 28).Draw(t, "d"), 0, 0, 0, 0, time.UTC)
+			doc = fmt.Sprintf("c17:\n  key: %q\n", tm.Format(layout))
+			typ := reflect.TypeOf(time.Time{})
+			fields = []reflect.StructField{
+				{Name: "P", Type: typ, Tag: reflect.StructTag(`prefix:"c17.key,timeLayout=` + layout + `"`)},
+				{Name: "V", Type: typ, Tag: reflect.StructTag(`value:"${c17.key},timeLayout=` + layout + `"`)},
+				{Name: "Q", Type: typ, Tag: reflect.StructTag(`prop:"c17.key,timeLayout=` + layout + `"`)},
+			}
+			want = tm
+		default:
+			m := Mapped{Host: rapid.StringMatching(`[a-z]{1,6}`).Draw(t, "h"), Port: rapid.IntRange(1, 65535).Draw(t, "p")}
+			doc = fmt.Sprintf("c17:\n  key:\n    h: %s\n    p: %d\n", m.Host, m.Port)
+			typ := reflect.TypeOf(Mapped{})
+			fields = []reflect.StructField{
+				{Name: "P", Type: typ, Tag: `prefix:"c17.key,mapper=cfg"`},
+				{Name: "V", Type: typ, Tag: `value:"${c17.key},mapper=cfg"`},
+				{Name: "Q", Type: typ, Tag: `prop:"c17.key,mapper=cfg"`},
+			}
+			want = m
+		}
+		obj := reflect.New(reflect.StructOf(fields))
+		out := kit.RunApp(app.SetComponents(obj.Interface()), app.SetConfigLoader(loader.NewRawLoader([]byte(doc))))
+		desc := fmt.Sprintf("conversion %T %v doc=%q", want, want, doc)
+		if !out.OK() {
+			t.Fatalf("C17: %s failed: %v", desc, out)
+		}
+		for i := 0; i < 3; i++ {
+			got := obj.Elem().Field(i).Interface()
+			eq := reflect.DeepEqual(got, want)
+			if tm, ok := want.(time.Time); ok {
+				eq = got.(time.Time).Equal(tm)
+			}
+			if !eq {
+				t.Fatalf("C17: %s: field %s holds %#v", desc, obj.Elem().Type().Field(i).Tag, got)
+			}
+		}
+		kit.Rec.Case(desc, true, fmt.Sprintf("conversion/%T", want))
+	})
 }
